@@ -10,7 +10,7 @@ RULE = ("enumerated: (1) the full CELL MATRIX (binary operator incl. op-assign f
         "type of the right operand) over 14 operand types (int, bigint, float, byte, bool, str, open list, fixed-shape list, map, "
         "plain and built-in-produced present optionals, function, object) with operands held in run-time variables, unary - and !, "
         "(2) the POSITION MATRIX (annotated initializer, re-assignment, argument, return, list element, map value, class field, "
-        "from-loop bound/step x declared type x supplied type), (3) every built-in method call of C14's in-domain catalogue, (4) a "
+        "from-loop bound/step x declared type x supplied type), (3) every built-in method call of C14's in-domain catalogue and every list / map built-in on containers whose key, value and element kinds all differ, (4) a "
         "catalogue of boundary cases of individual typing rules; random: programs of every generator (C01/C07/C08/C12/C13/C15/C17). "
         "Oracle for every program the compiler ACCEPTS: it must not stop with a failure outside the language's defined dynamic "
         "failures (classified from stderr: invalid operation, cannot compare, not in scope / not mapped, not a function, missing "
@@ -155,6 +155,19 @@ def cell_programs():
                 src = PRE + "a: %s = %s\ne: %s = %s\n" % (sk, lo, sk, hi) + ("" if tk is None else "st: %s = %s\n" % (tk, NUMS[tk][2])) + \
                     "print \"@run\"\n" + head + "\n" + "".join("\t" + l + "\n" for l in probe("i").strip().split("\n")) + "}\n"
                 out.append(("loop-counter|%s|%s|%s" % (sk, tk or "nostep", form), src))
+    # list and map built-ins: declared result type against the run-time kind, on containers whose key / value / element
+    # kinds all differ (so a signature built from the wrong type parameter shows)
+    COLL = "ms: map[str, int] = map[str, int] {\"k\": 1, \"j\": 2}\nmf: map[int, float] = map[int, float] {1: 1.5, 2: 2.5}\nmb: map[str, bool] = map[str, bool] {\"t\": true}\n" \
+           "li: [int...] = [3, 4, 5]\nls: [str...] = [\"a\", \"b\"]\nlf: [float...] = [1.5, 2.5]\nlb: [bigint...] = [B7, B8]\n" \
+           "i2s = fn(x: int) -> str {\n\treturn \"s\" + x\n}\ns2i = fn(x: str) -> int {\n\treturn x.len()\n}\nf2b = fn(x: float) -> bool {\n\treturn x > 2.0\n}\nisbig = fn(x: int) -> bool {\n\treturn x > 3\n}\n"
+    exprs = ["ms.len()", "ms.contains_key(\"k\")", "ms[\"k\"]", "mf[1]", "mb[\"t\"]", "ms.replace(\"k\", 9)", "mf.replace(1, 9.5)", "mb.replace(\"t\", false)",
+             "ms.remove(\"k\")", "mf.remove(1)", "mb.remove(\"t\")", "ms.remove(\"zz\")", "ms.keys()", "(ms.keys())[0]", "(mf.keys())[0]", "ms.values()", "(ms.values())[0]", "(mf.values())[0]",
+             "(mb.values())[0]", "ms.pairs()", "(ms.pairs())[0]", "ms.clone()", "(ms.clone())[\"k\"]", "(mf.clone())[2]",
+             "li.len()", "li[0]", "ls[0]", "lf[0]", "lb[0]", "li.remove(0)", "ls.remove(0)", "lf.remove(1)", "lb.remove(0)", "li.index_of(4)", "ls.index_of(\"b\")", "lf.index_of(2.5)",
+             "li.clone()", "(li.clone())[0]", "(ls.clone())[0]", "li.reverse()", "li.join([9])", "(ls.join([\"z\"]))[2]", "li.map(i2s)", "(li.map(i2s))[0]", "(ls.map(s2i))[0]", "(lf.map(f2b))[0]",
+             "li.filter(isbig)", "(li.filter(isbig))[0]", "li == [3, 4, 5]", "li + [1]", "(li + [1])[3]", "ls + [\"q\"]", "(ls + [\"q\"])[0]"]
+    for e in exprs:
+        out.append(("coll|%s" % e, COLL + "print \"@run\"\n" + probe(e)))
     return out
 
 
